@@ -7,7 +7,7 @@ ASAN_QUICK = True
 
 
 def components():
-    return [Y.ModHash(), Y.CcWrap(), Y.YlRoundTrip()]
+    return [Y.ModHash(), Y.CcWrap(), Y.CcOps(), Y.YlRoundTrip()]
 
 
 def oracles_():
@@ -44,7 +44,12 @@ MANIFEST = {
             "C19_modhash_stream_injective_refuted / C19_modhash_name_revision_boundary_refuted (strings are fed without "
             "separators: finding yl-hash-concat) and C19_spec_stream_injective (the NUL-delimited encoding is injective). Counter "
             "(uint16_t): C19_change_count_differs / _consecutive (differs after 1..65535 events), C19_change_count_strict_refuted "
-            "(wraps after 65536). YangLib.v transcribes ly_ctx_get_yanglib_data (module / import-only-module entries with name, "
+            "(wraps after 65536); C19_set_implemented_counted (model set_impl_op = lys_set_features with its change flag, "
+            "_lys_set_implemented, lys_implement under LY_CTX_EXPLICIT_COMPILE; hypotheses: one record per (name, revision), the "
+            "module has no augment / deviation statements): a lys_set_implemented call that changes the implemented flag or an "
+            "enabled feature is counted at least (and at most) once, a call that changes nothing is not counted, so the counter "
+            "differs exactly after changing calls; regression Example C19_counter_seed_witnesses (disable-only change / implement "
+            "not counted in the two seeded variants). YangLib.v transcribes ly_ctx_get_yanglib_data (module / import-only-module entries with name, "
             "revision, namespace, features, deviations, submodules), ly_ctx_new_yldata, ly_ctx_load_module (lys_parse_load, import "
             "resolution, _lys_set_implemented / lys_set_features with NULL / * / array, implementing augment and deviation "
             "targets) and lysp_load_submodules (as of /repo 272016c): C19_describe_tells_obs, C19_includes_array_is_closure, "
@@ -57,7 +62,9 @@ MANIFEST = {
             "Examples C19_hypotheses_satisfiable, C19_roundtrip_into_populated_context, C19_roundtrip_hypotheses_with_deviation, "
             "C19_deviation_roundtrip_computed, C19_unpinned_import_is_unmodelled. Tie (T2, extracted model vs C on generated "
             "module sets): records read back from the context + ly_ctx_get_modules_hash (feature array order = includes_order), "
-            "the uint16_t field, yang-library entries of the re-parsed data and the records of the context rebuilt by "
+            "the uint16_t field, per ly_ctx_load_module / lys_set_implemented call under LY_CTX_EXPLICIT_COMPILE the counter "
+            "difference, modules added and whether the records changed (YangLib.load_op / set_impl_op, also with augment / deviation "
+            "targets; component ccops), yang-library entries of the re-parsed data and the records of the context rebuilt by "
             "ly_ctx_new_ylmem (also into populated contexts, with augment / deviation dependencies). Oracle level only (API, no "
             "model): hash sensitivity, change counter after every changing operation (also LY_CTX_EXPLICIT_COMPILE), and the "
             "round trip in all variants (options of the rebuilding context, callback / search directory, yldata / ylmem / ylpath "
@@ -67,7 +74,8 @@ MANIFEST = {
             "runs only. Not modelled: compilation (schema equality and node order are implementation-level comparisons), location "
             "leaves, datastore list, legacy modules-state list, search directory lookup, LY_CTX_ALL_IMPLEMENTED / REF_IMPLEMENTED / "
             "ENABLE_IMP_FEATURES, imports without revision-date when several revisions are in play (model answers E_UNMODELLED), "
-            "the number of counter events per operation, if-feature dependencies between features. Known findings: yl-hash-concat, "
+            "the number of counter events of lys_compile (so counter differences without LY_CTX_EXPLICIT_COMPILE and of "
+            "ly_ctx_compile are oracle-level only: change-count), the revert of a failing operation, if-feature dependencies between features. Known findings: yl-hash-concat, "
             "yl-import-only-rev, yl-augment-order. Fixed: yl-hash-fi (c8adb05), yl-cc-explicit-compile (d4e18d7), "
             "yl-sub-include-skipped (272016c).",
     "technique": "Coq proof over hand-written model + differential correspondence (extracted OCaml vs C) + API oracles",
